@@ -165,6 +165,7 @@ type World struct {
 	LogHash    uint64
 	envForce   bool
 	zombies    []*Actor
+	Registry   *Registry
 	sweepCount int
 	Taint      map[string]string // object key -> cause tag set by a monitor (e.g. stale takeover)
 	extra      map[string]any
